@@ -1357,6 +1357,13 @@ impl Sessions {
         (self.global_group_data_ctr, self.group_data_ctr_boundary)
     }
 
+    /// `(fab_idx, src_nodeid, max_ctr, ctr_bitmap)` of every group sender whose receive window
+    /// is tracked - read-only projection for the verification harness.
+    #[cfg(all(feature = "verif", feature = "groups"))]
+    pub fn verif_group_rx_tracked(&self) -> impl Iterator<Item = (u8, u64, u32, u16)> + '_ {
+        self.group_ctr_store.verif_tracked()
+    }
+
     /// Get or create a TX group session for sending group data messages to
     /// `(fab_idx, group_id)`.
     ///
